@@ -341,12 +341,12 @@ pub fn report(out: &mut Out, prop: &str) {
             "fs:case:worker-pipeline-on-LocalFs+restart", "fs:prefix-checked:segment", "fs:prefix-checked:manifest", "fs:prefix-checked:checkpoint", "fs:crash-image-recovered-on-LocalFs",
         ]),
         "C13" => require_cells(out, prop, &[
-            "hist:case:compact-if-needed", "hist:case:compaction-worker", "hist:case:emptied-then-refilled", "hist:exactness-checked",
+            "hist:case:compact-if-needed", "hist:case:compaction-worker", "hist:case:emptied-then-refilled", "hist:checkpoint-between-compactions", "hist:exactness-checked",
             "ifneeded:max_segments:=len", "ifneeded:max_segments:=len-1", "ifneeded:max_segments:=len+1",
             "boundary:target-at-a-segment-size", "boundary:cutoff-at-a-tombstone-stamp", "interleaving:manifest-sections-overlap", "interleaving:manifest-sections-serialized",
         ]),
         "C11" => require_cells(out, prop, &[
-            "x11:checkpoint-via-manager", "x11:manifest-manager:add_segment", "x11:manifest-manager:update", "x11:production-startup-sequence",
+            "x11:checkpoint-via-manager", "x11:manifest-manager:add_segment", "x11:manifest-manager:update", "x11:production-startup-sequence", "x11:recovery-entry-point-run-twice",
             "x11:should_checkpoint:min_segments:=len", "x11:should_checkpoint:min_segments:<len", "x11:should_checkpoint:min_segments:>len", "x11:covering-checkpoint(last>=next-1)", "wal:truncate:MIDDLE-file-deleted(hole in the sequence)", "wal:truncate:prefix-deleted", "wal:files=>=3",
         ]),
         _ => {}
